@@ -926,6 +926,7 @@ int main()
         victim = server;
         server = NULL;
         TcpServer* v = victim;
+        std::set<TcpConnection*> before = liveSet(v);
         loops[0]->w.startAsync([v]() {
           t_inSrvDtor = true;
           delete v;
@@ -933,7 +934,6 @@ int main()
           { std::lock_guard<std::mutex> l(g_poolMu); g_sdDone = true; }
           g_poolCv.notify_all();
         });
-        std::set<TcpConnection*> before = liveSet(v);
         waitStep(pp, pj);
         handRaw = NULL;
         if (dying) { std::set<TcpConnection*> after = liveSet(v); for (TcpConnection* x : before) if (!after.count(x)) handRaw = x; }
